@@ -482,7 +482,7 @@ func init() {
 				closures := map[*ast.FuncLit]bool{}
 				ast.Inspect(u.Decl.Body, func(n ast.Node) bool {
 					if ce, ok := n.(*ast.CallExpr); ok {
-						if fn := Callee(info, ce); fn != nil && mkVal[fn.Name()] {
+						if fn := Callee(info, ce); fn != nil && mkVal[shortName(originOf(fn))] {
 							for _, a := range ce.Args {
 								if fl, ok := ast.Unparen(a).(*ast.FuncLit); ok {
 									closures[fl] = true
@@ -493,7 +493,7 @@ func init() {
 					return true
 				})
 				// functions that ARE validation-time code entirely: applyConstraint and helpers called from closures only
-				if u.Obj.Name() == "applyConstraint" || u.Obj.Name() == "builtinValidate" {
+				if shortName(u.Obj) == "applyConstraint" || shortName(u.Obj) == "builtinValidate" {
 					continue
 				}
 				ord := &ordinal{}
@@ -548,7 +548,7 @@ func init() {
 						return true
 					}
 					fn := Callee(info, ce)
-					if fn == nil || !mkVal[fn.Name()] {
+					if fn == nil || !mkVal[shortName(originOf(fn))] {
 						return true
 					}
 					for _, a := range ce.Args {
